@@ -14,6 +14,7 @@ from . import c01, c02
 
 PROPERTY = "C03"
 LEVEL = "exploration"
+TECHNIQUE = "property-based testing (Hypothesis): CSR validity predicate + differential between the four back-ends' Jacobian text + pattern file + subscript bounds; a fraction of cases compiled with ASan/UBSan against exactly-sized buffers and compared with the text reading"
 RULE = (
     "C01/C02 networks (incl. the empty network, isolated required species, with/without the thermal equation, with "
     "modifiers) rendered for dense, sparse, cusparse and rosenbrock4, with the Jacobian-pattern file. Validity "
